@@ -18,11 +18,16 @@ type c07Params struct {
 	Rel       string // free (releaser races) | late (released only after quiescence)
 	Maxpend   int
 	Dotu      bool
+	Notag     bool // the target request carries tag 0xFFFF
 	P         int
 }
 
 func (p c07Params) name() string {
-	return fmt.Sprintf("flush %s stage=%s flushop=%s gated=%v rel=%s maxpend=%d dotu=%v", p.Kind, p.Stage, p.FlushMode, p.Gated, p.Rel, p.Maxpend, p.Dotu)
+	nt := ""
+	if p.Notag {
+		nt = " target-tag=0xffff"
+	}
+	return fmt.Sprintf("flush %s stage=%s flushop=%s gated=%v rel=%s maxpend=%d dotu=%v%s", p.Kind, p.Stage, p.FlushMode, p.Gated, p.Rel, p.Maxpend, p.Dotu, nt)
 }
 
 type c07Obs struct {
@@ -38,7 +43,11 @@ type c07Obs struct {
 
 func c07Scenario(p c07Params) Scenario {
 	var o *c07Obs
-	const tTag, fTag, fTag2 = 100, 101, 102
+	const fTag, fTag2 = 101, 102
+	tTag := uint16(100)
+	if p.Notag {
+		tTag = 0xFFFF // the server does not reserve NOTAG: an ordinary request may carry it
+	}
 	body := func() {
 		s := newSess(SrvOpt{Msize: 256, Dotu: p.Dotu, Maxpend: p.Maxpend, Flush: p.FlushMode != "none"})
 		s.fs.FlushMode = p.FlushMode
@@ -299,6 +308,10 @@ func c07Scenarios(tier string) []Scenario {
 		add(c07Params{Kind: k, Stage: "flushflush", FlushMode: "none", Gated: true, Rel: "late", Dotu: true, P: 2})
 		add(c07Params{Kind: k, Stage: "sametag", FlushMode: "none", Maxpend: 0, P: 2})
 		add(c07Params{Kind: k, Stage: "sametag", FlushMode: "cancel", Gated: true, Rel: "late", Maxpend: 2, Dotu: true, P: 2})
+		// the target carries tag 0xFFFF (NOTAG is not reserved by the server)
+		add(c07Params{Kind: k, Stage: "executing", FlushMode: "none", Gated: true, Rel: "late", Notag: true, P: 2})
+		add(c07Params{Kind: k, Stage: "executing", FlushMode: "cancel", Gated: true, Rel: "free", Notag: true, Maxpend: 1, Dotu: true, P: 2})
+		add(c07Params{Kind: k, Stage: "sameseg", FlushMode: "none", Notag: true, Dotu: true, P: 2})
 	}
 	return out
 }
@@ -306,7 +319,7 @@ func c07Scenarios(tier string) []Scenario {
 func init() {
 	register(&Property{ID: "C07", Level: "model_checking",
 		Technique: "stateless model checking of the real server under a controlled scheduler (all schedules within a preemption bound)",
-		Rule:      "every schedule with at most P preemptions of the server goroutines, scripted implementation and releaser, per scenario (target kind x flush stage x FlushOp behaviour x gated/immediate x release timing x Maxpend x dialect); after quiescence sequential probes (fid state, tag reuse); distinct = distinct per-object operation orders",
+		Rule:      "every schedule with at most P preemptions of the server goroutines, scripted implementation and releaser, per scenario (target kind x flush stage x FlushOp behaviour x gated/immediate x release timing x Maxpend x dialect; also with the target carrying tag 0xFFFF); after quiescence sequential probes (fid state, tag reuse); distinct = distinct per-object operation orders",
 		Assumptions: []string{"code between two synchronisation operations is atomic (race-free executions)", "transport modelled as an unbounded reliable byte queue", "the reply buffer the target receives last carried the matching R-type (warm-up request of the same kind)"},
 		Scenarios:   c07Scenarios, QuickS: 110, ThoroughS: 1700})
 }
